@@ -34,10 +34,11 @@ SUB_TRUST = ["sync.RWMutex, sync/atomic and channels behave as the Go memory mod
 
 HUB_STAGE = {"kind": "cases", "name": "hub-histories", "driver": "HUBSEQ", "n": {"quick": 400, "thorough": 6000}}
 HUB_RULE = ("handler-level sequential histories on the real hub (both transports; retention size 0/2/3; subscription events on/off): 6-20 operations "
-            "drawn from publish (1-2 topics over {a,b,c}, private or not), subscribe (selectors over {a,b,c,*}, anonymous / claim [a|b] / claim [*], "
+            "drawn from a client that stops reading / reads again (its handler blocks in Write), bursts of publishes (every 8th case: 1000, 1001, 1002 or 1005 "
+            "updates to a stalled subscriber while another one keeps reading, so that the hub cuts the slow one off), publish (1-2 topics over {a,b,c}, private or not), subscribe (selectors over {a,b,c,*}, anonymous / claim [a|b] / claim [*], "
             "Last-Event-ID none / earliest / a published id / unknown), client leaves, Hub.Stop, restart on the same history file; observed: each "
             "stream's status, Last-Event-ID header, ids received, whether the hub ended it; every publish's status; the history file read back; "
-            "subscription events in it; the Prometheus gauge and counters after every operation. Each case is replayed through Model/Hub.v's wstep "
+            "subscription events in it; the Prometheus gauge and counters and the number of listed subscribers after every operation. Each case is replayed through Model/Hub.v's wstep "
             "and judged by the abstract sequential specification (Model/HubCases.v hub_spec_ok). non-trivial = at least 2 publishes and one matching pair")
 HUB_TRUST = ["critical sections under the transport lock and LocalSubscriber methods are single steps of Model/Hub.v (reduction argument in the file header; "
              "the fine-grained subscriber system is Model/SubLts.v); concurrency is covered by the theorems (all schedules of the model) and by the "
@@ -64,8 +65,8 @@ PROPS = {
     "C20": {"stages": [HUB_STAGE], "rule": HUB_RULE, "trusted": HUB_TRUST, "assumptions": []},
     "C13": {
         "binaries": ["verifh", "verifs"],
-        "stages": SUB_STAGES,
-        "rule": SUB_RULE,
+        "stages": SUB_STAGES + [HUB_STAGE],
+        "rule": SUB_RULE + " hub-histories: " + HUB_RULE,
         "trusted": SUB_TRUST + ["wall-clock time is not modelled: 'bounded' means a bounded number of steps of the publisher plus the critical sections ahead of it"],
         "assumptions": ["Ready is called once per subscriber (AddSubscriber does)"],
     },
